@@ -23,7 +23,7 @@ from contracts.container_ops import assume_distinct
 PID = 'C19'
 FUNCTIONS = ['Unit.get_human_readable_unit', 'Unit.convert_from_storage_to_standard_format', 'Container.__init__',
              'Container._transfer', 'Container.fill_to', 'Container.dilute', 'Container.create_solution_from',
-             'Recipe.bake']
+             'Recipe.bake', 'PlateSlicer._transfer', 'Container._transfer_slice', 'Slicer.apply']
 ASSUMPTIONS = ["A3: f'{x}' of a number prints repr(x) and float(repr(x)) == x",
                "display rounding is the uninterpreted rnd(p, x) with |rnd(p,x) - x| <= 0.5*10^-p"]
 EXPLANATION = "helpers proved against their spec; instruction lines as structured terms compared with the true amounts"
@@ -39,12 +39,20 @@ def tasks(tier):
     t += [('line', 'dilute', 1, 'mol/L'), ('line', 'dilute', 2, 'g/g')]
     t += [('line', 'create_from', 1, 'mL'), ('line', 'create_from', 1, 'g')]
     t += [('bake_line', 'fill_to'), ('bake_line', 'dilute')]
+    # every well keeps its own preparation text through plate operations (text provenance; contracts/plate_ops.py)
+    from contracts import plate_ops as PO
+    t += [('plate_text',) + c for c in PO.transfer_cases(tier)]
     t.append(('canaries',))
     return t
 
 
 def run(kind_, *args):
     return globals()['run_' + kind_](*args)
+
+
+def run_plate_text(*case):
+    from contracts import plate_ops as PO
+    return [r for r in PO.run_transfer(PID, *case) if r['kind'] != 'cover']
 
 
 # ------------------------------------------------------------------------------------------------ A. the helpers
